@@ -211,7 +211,7 @@ def replay_scenario(begin):
     c.pop("wbreak", None)
     return {"id": begin["id"] + "#re", "cfg": c, "breakAt": begin.get("breakAt", -1), "sched": begin.get("sched", ""),
             "rev": begin.get("rev", 54460), "compression": begin.get("compression", "disabled"), "rowsPer": begin.get("rowsPer", 0),
-            "breakBytes": begin.get("breakBytes", 0), "drainBreak": begin.get("drainBreak", False)}
+            "breakBytes": begin.get("breakBytes", 0), "drainBreak": begin.get("drainBreak", False), "closeErr": begin.get("closeErr", False)}
 
 
 def check_and_report(run, pid, drv, scenarios, name, keyprefix=""):
